@@ -167,7 +167,7 @@ func init() {
 		}
 		return nil
 	}
-	m[vhPath+"Isolated"] = func(fr *frame, a []Value) Value {
+	m[vhPath+"isolatedRun"] = func(fr *frame, a []Value) Value {
 		w := fr.w
 		if w.iso != nil {
 			return w.call(fr, a[0], nil) // nested: the outer recorder is already watching
